@@ -485,6 +485,29 @@ func ruleRC5() Rule {
 					return fo != nil && c.P.FuncOf(fo) == tr
 				}
 				fl := core.NewFlow(g)
+				// `tok, ok := l.helper(…)` where the helper answers false only with a token it has
+				// tested to be no WORD: on the false side of ok, tok is no WORD
+				okOf := map[types.Object]types.Object{} // ok variable -> token variable
+				g.OwnNodes(func(n ast.Node) bool {
+					as, isAs := n.(*ast.AssignStmt)
+					if !isAs || len(as.Lhs) != 2 || len(as.Rhs) != 1 {
+						return true
+					}
+					call, isCall := ast.Unparen(as.Rhs[0]).(*ast.CallExpr)
+					if !isCall {
+						return true
+					}
+					fo := core.StaticCallee(info, call)
+					if fo == nil {
+						return true
+					}
+					if h := c.P.FuncOf(fo); h != nil && c.falseMeansNotWord(h) {
+						if t, k := isTokVar(as.Lhs[0]), isTokVar(as.Lhs[1]); t != nil && k != nil {
+							okOf[k] = t
+						}
+					}
+					return true
+				})
 				// one analysis per token variable used in a dispatch
 				for _, call := range calls {
 					key := g.Name + "|lexToken(" + exprStr(call.Args[0]) + ")"
@@ -547,6 +570,22 @@ func ruleRC5() Rule {
 									return in | notWord // equal to another constant
 								}
 								return in
+							}
+							// the ok result of a helper (see okOf)
+							{
+								cc, tr2 := ast.Unparen(cond), truth
+								for {
+									u, isNot := cc.(*ast.UnaryExpr)
+									if !isNot || u.Op != token.NOT {
+										break
+									}
+									cc, tr2 = ast.Unparen(u.X), !tr2
+								}
+								if id, isID := cc.(*ast.Ident); isID {
+									if k := isTokVar(id); k != nil && okOf[k] == obj && !tr2 {
+										return in | notWord
+									}
+								}
 							}
 							be, ok := cond.(*ast.BinaryExpr)
 							if !ok {
@@ -3127,4 +3166,70 @@ func (c *Ctx) tokenParamValues(g *core.Func, name string, use ast.Node) ([]strin
 	}
 	sort.Strings(out)
 	return out, true
+}
+
+// falseMeansNotWord: h returns (token, bool) and every return whose second
+// result is false hands out a token that was compared with WORD and found
+// different (or a constant other than WORD); the other returns say true.
+func (c *Ctx) falseMeansNotWord(h *core.Func) bool {
+	if h == nil || h.Body == nil || h.Type.Results == nil || h.Type.Results.NumFields() != 2 {
+		return false
+	}
+	key := "falseMeansNotWord:" + h.Name
+	if v, ok := c.cache[key]; ok {
+		return v.(bool)
+	}
+	info := h.Info()
+	ok, n := true, 0
+	h.OwnNodes(func(x ast.Node) bool {
+		ret, isRet := x.(*ast.ReturnStmt)
+		if !isRet {
+			return true
+		}
+		n++
+		if len(ret.Results) != 2 {
+			ok = false
+			return true
+		}
+		tv, has := info.Types[ret.Results[1]]
+		if !has || tv.Value == nil {
+			ok = false
+			return true
+		}
+		if tv.Value.String() == "true" {
+			return true
+		}
+		// false: the token is no WORD here
+		if t0, isC := info.Types[ret.Results[0]]; isC && t0.Value != nil {
+			if exprStr(ret.Results[0]) == "WORD" {
+				ok = false
+			}
+			return true
+		}
+		id, isID := ast.Unparen(ret.Results[0]).(*ast.Ident)
+		if !isID {
+			ok = false
+			return true
+		}
+		proved := false
+		for _, gd := range guardsOf(c.P, ret, nil) {
+			for _, cj := range conj(gd.cond) {
+				be, isBE := ast.Unparen(cj).(*ast.BinaryExpr)
+				if !isBE || !gd.pos || be.Op != token.NEQ || exprStr(be.Y) != "WORD" {
+					continue
+				}
+				// `tok != WORD` or `tok = f(); tok != WORD`
+				if xid, isX := ast.Unparen(be.X).(*ast.Ident); isX && info.Uses[xid] == info.Uses[id] {
+					proved = true
+				}
+			}
+		}
+		if !proved {
+			ok = false
+		}
+		return true
+	})
+	res := ok && n > 0
+	c.cache[key] = res
+	return res
 }
